@@ -235,7 +235,8 @@ func (r *Runner) builtin(ctx context.Context, pos syntax.Pos, name string, args 
 				newline = false
 			case "-e":
 				doExpand = true
-			case "-E": // default
+			case "-E": // default, and undoes an earlier -e
+				doExpand = false
 			default:
 				break echoOpts
 			}
